@@ -65,6 +65,10 @@ class DiskReplayer:
                     self.raw.set(k, "not-bytes")
                 elif how == "stype":
                     self.raw.set(hk, 12345)
+                elif how == "sigalter":
+                    old = self.raw.get(hk)
+                    # alternately: another well-formed hex digest / arbitrary (non-ASCII) text
+                    self.raw.set(hk, ("0" * len(old)) if (self.n + i) % 2 == 0 else ("\u00e9" * 16 + old[16:]))
                 elif how == "delsig":
                     self.raw.delete(hk)
                 elif how == "delpay":
